@@ -389,7 +389,16 @@ def rule_backpointers(ctx):
     rule_cell_equations(ctx)
 
 
+def rule_rewalk_normalized(ctx):
+    """The index re-walk (calculate_score, shared by greedy / substring / prefix / postfix / exact and the contiguous
+    fuzzy case) compares NORMALIZED haystack characters with the needle, like the deciders that accepted the match:
+    a raw comparison skips matched positions and reports fewer indices than needle characters."""
+    from props.c01 import rule_norm_route
+    rule_norm_route(ctx, only=("score::<impl Matcher>::calculate_score",), floor=1)
+
+
 def rules(ctx):
+    ctx.run_rule("C02.rewalk-normalized", rule_rewalk_normalized)
     ctx.run_rule("C02.backpointers", rule_backpointers)
     ctx.run_rule("C02.append-only", rule_append_only)
     ctx.run_rule("C02.no-push-on-none", rule_no_push_on_none)
